@@ -62,7 +62,9 @@ def main():
     # 2. build + audit
     build_ok = False
     axioms = {}
-    if ok:
+    # (with stale sections the constants file carries their last good values: the models still build, and the
+    # correspondence below shows on which inputs code and model now differ)
+    if ok or stale is not None:
         b_ok, out, dt = lib.lake_build(tuple(mod.PROPS) + tuple(getattr(mod, "MODELS", [])) + ("driver",))
         notes.append(f"lake build: {'ok' if b_ok else 'FAILED'} in {dt:.1f}s")
         if not b_ok:
